@@ -1920,6 +1920,20 @@ class Engine:
         if isinstance(o, PyExc):
             o = o.obj
             return self.getattr(o, name)
+        if isinstance(o, Native) and o.name in ("bytes", "bytearray"):
+            if name == "maketrans":
+                def maketrans(frm, to):
+                    if not (isinstance(frm, Bytes) and isinstance(to, Bytes) and len(frm.items) == len(to.items)):
+                        self.throw("ValueError", "maketrans arguments must have same length")
+                    if not all(isinstance(x, int) for x in frm.items + to.items):
+                        raise Unsupported("maketrans with symbolic bytes")
+                    table = list(range(256))
+                    for a, b in zip(frm.items, to.items):
+                        table[a] = b
+                    return self.mk_bytes(table, False, "bytes")
+                return Native(maketrans, "bytes.maketrans")
+            if name == "fromhex":
+                return Native(lambda h: self.mk_bytes(list(bytes.fromhex(h)), o.name == "bytearray", o.name), "fromhex")
         if isinstance(o, Bytes) and o.kind == "memoryview":
             if name == "obj":
                 return o.base
